@@ -302,7 +302,7 @@ def _nodes(draw, depth, clean, xhtml, budget):
             items.append({'lit': draw(st.integers(0, len(LITERALS_XHTML if xhtml else LITERALS_XML) - 1))})
         elif k == 10:
             items.append({'sp': 1} if draw(st.booleans()) else
-                         {'cmt': draw(st.one_of(hostile_texts(clean), st.sampled_from(['--', 'a--b', 'ends with -', '-', '-->', 'x -- y -- z', '<!-- -->', ' plain '])))})
+                         {'cmt': draw(st.one_of(hostile_texts(clean), st.sampled_from(['--', 'a--b', 'ends with -', '-', '-->', 'x -- y -- z', '<!-- -->', ' plain ', '---', '----', 'A---B', '== ----- ==', '-- ---', '-' * 9])))})
         elif budget[1] > 0 and draw(st.integers(0, 2)) == 0:
             budget[1] = 0
             items.append({'raise': 1})
